@@ -50,6 +50,7 @@ std::string show(const fitness_t &f)
 int main()
 {
   vita::log::reporting_level = vita::log::lOFF;
+  std::cout.setf(std::ios::unitbuf);   // an abort must not swallow earlier answers
   std::string line;
   while (std::getline(std::cin, line))
   {
